@@ -118,6 +118,8 @@ Committed(id) ==
     /\ \E b1, b2 \in Ids :
         CASE Weak = "commit2" -> b2 = b1 /\ Direct(b1, id) /\ Certified(b1)                       \* two-chain commit
           [] Weak = "nodirect" -> ParentId(b1) = id /\ ParentId(b2) = b1 /\ Certified(b1) /\ Certified(b2)
+          [] Weak = "gaplow" -> ParentId(b1) = id /\ Direct(b2, b1) /\ Certified(b1) /\ Certified(b2)      \* only the upper link in consecutive views
+          [] Weak = "gaphigh" -> Direct(b1, id) /\ ParentId(b2) = b1 /\ Certified(b1) /\ Certified(b2)     \* only the lower link
           [] OTHER -> Direct(b1, id) /\ Direct(b2, b1) /\ Certified(b1) /\ Certified(b2)
 Agreement == \A a, b \in Ids : (Committed(a) /\ Committed(b)) => ~Conflict(a, b)
 OneVotePerView == \A r \in Honest : \A a, b \in votes[r] : ViewOf(a) = ViewOf(b) => a = b
